@@ -28,6 +28,9 @@ def build_field(fs, names):
     cls = field_class(ftype)
     attrs = dict(as_dict(fs['attrs']))
     attrs.pop('related_model', None)
+    if 'db_column' in attrs:
+        from .absmodel import resolve_col
+        attrs['db_column'] = resolve_col(attrs['db_column'], names)
     if ftype in ('FK', 'O2O'):
         return cls(names.rel(fs['rel']), on_delete=models.CASCADE, **attrs)
     if ftype == 'M2M':
